@@ -103,6 +103,17 @@ Definition check_sat (U : provider) (P : problem) (db : list cl) (tr : list lit)
   forallb (fun c => cl_true a (cl_lits c)) db &&
   closedb U P db S (exempt P S).
 
+(* the same, tolerating falsified package-level clauses of exempt (accepted soft)
+   solvables -- the documented exemption *)
+Definition check_sat_lenient (U : provider) (P : problem) (db : list cl) (tr : list lit) (sol : list N) : bool :=
+  let a := asg_of U db tr in
+  let S := sel_of tr in
+  vars_nodup tr &&
+  nl_eqb sol (rev S) &&
+  a VRoot &&
+  forallb (sat_or_exempt U a (exempt P S)) db &&
+  closedb U P db S (exempt P S).
+
 Lemma pval_In tr v b : pval tr v = Some b -> In (v, b) tr.
 Proof.
   induction tr as [|[w p] t IH]; simpl; [discriminate|].
@@ -140,21 +151,42 @@ Proof.
     + apply IH; assumption.
 Qed.
 
-Theorem check_sat_sound U P (HW : WF U) db tr sol :
-  check_sat U P db tr sol = true ->
+Lemma asg_sel_iff U db tr : vars_nodup tr = true ->
+  forall s, In s (sel_of tr) <-> asg_of U db tr (VSol s) = true.
+Proof.
+  intros Hnd s. rewrite sel_of_In. unfold asg_of. split.
+  - intro Hin. rewrite (nodup_pval tr _ _ Hnd Hin). reflexivity.
+  - destruct (pval tr (VSol s)) as [b|] eqn:E; [|discriminate].
+    intro Hb. subst b. apply pval_In. exact E.
+Qed.
+
+Theorem check_sat_lenient_sound U P (HW : WF U) db tr sol :
+  check_sat_lenient U P db tr sol = true ->
   sol = rev (sel_of tr) /\ valid U P (sel_of tr) (exempt P (sel_of tr)).
 Proof.
-  unfold check_sat. intro H.
+  unfold check_sat_lenient. intro H.
   apply andb_true_iff in H. destruct H as [H Hcl]. apply andb_true_iff in H. destruct H as [H Hall].
   apply andb_true_iff in H. destruct H as [H Hroot]. apply andb_true_iff in H. destruct H as [Hnd Hsol].
   apply nl_eqb_eq in Hsol. split; [exact Hsol|].
   rewrite forallb_forall in Hall.
   apply (E2 U P HW db (asg_of U db tr) (sel_of tr) (exempt P (sel_of tr)));
-    [exact Hall | | exact Hroot | exact Hcl].
-  intro s. rewrite sel_of_In. unfold asg_of. split.
-  - intro Hin. rewrite (nodup_pval tr _ _ Hnd Hin). reflexivity.
-  - destruct (pval tr (VSol s)) as [b|] eqn:E; [|discriminate].
-    intro Hb. subst b. apply pval_In. exact E.
+    [exact Hall | apply (asg_sel_iff U db tr Hnd) | exact Hroot | exact Hcl].
+Qed.
+
+Lemma check_sat_lenient_of_strict U P db tr sol :
+  check_sat U P db tr sol = true -> check_sat_lenient U P db tr sol = true.
+Proof.
+  unfold check_sat, check_sat_lenient. intro H.
+  apply andb_true_iff in H. destruct H as [H Hcl]. apply andb_true_iff in H. destruct H as [H Hall].
+  rewrite H, Hcl. simpl. rewrite andb_true_r. rewrite forallb_forall in *.
+  intros c Hc. unfold sat_or_exempt. rewrite (Hall c Hc). reflexivity.
+Qed.
+
+Theorem check_sat_sound U P (HW : WF U) db tr sol :
+  check_sat U P db tr sol = true ->
+  sol = rev (sel_of tr) /\ valid U P (sel_of tr) (exempt P (sel_of tr)).
+Proof.
+  intro H. apply (check_sat_lenient_sound U P HW db tr sol). apply check_sat_lenient_of_strict. exact H.
 Qed.
 
 (* ---------- table universes: decidable well-formedness ---------- *)
